@@ -321,6 +321,12 @@ def on_alarm(signum, frame):
     raise Abort('timeout')
 
 
+def other_optimizer(name):
+    """An optimizer of another class for an earlier task (whatever module is installed under that name: the recorder is inactive)."""
+    mod = importlib.import_module('opytimizer.optimizers.' + name.lower())
+    return getattr(mod, name)()
+
+
 def run_case(inst, cfg):
     """-> (case dict, None) or (None, reason it was skipped)."""
     from opytimizer import Opytimizer
@@ -354,6 +360,22 @@ def run_case(inst, cfg):
     def observer(o, s, f):
         st['hooks'] = st.get('hooks', 0) + 1
 
+    # a history of tasks: earlier tasks on the same space (same objective, not recorded: the recorder is inactive); the observed task
+    # then starts from the state they leave -- positions AND fitnesses of the agents, the best agent, the trees
+    signal.signal(signal.SIGALRM, on_alarm)
+    for pre in cfg.get('prelude') or []:
+        signal.alarm(20)
+        try:
+            popt = opt if pre == 'self' else (inst.optimizer(cfg.get('hyperparams')) if pre == 'same-class' else other_optimizer(pre))
+            with np.errstate(all='ignore'):
+                Opytimizer(space=space, optimizer=popt, function=Function(pointer=lambda y: raw(y))).start()
+        except Abort as ex:
+            return None, 'prelude aborted: %s' % ex
+        except Exception as ex:  # noqa: BLE001
+            return None, 'prelude exception: %s' % type(ex).__name__
+        finally:
+            signal.alarm(0)
+
     orig_run, orig_dump = opt.run, History.dump
 
     def run(sp, function, store_best_only=False, pre_evaluation_hook=None):
@@ -361,6 +383,14 @@ def run_case(inst, cfg):
         st['lbs'] = [hlib.key(0.0 if cfg['space'] == 'hyper' else v) for v in lb]
         st['ubs'] = [hlib.key(1.0 if cfg['space'] == 'hyper' else v) for v in ub]
         st['x0'] = snapshot(sp.agents, sp.best_agent, None, sp)
+        # state the model does not carry: every agent is assumed to clip to the box of the specification.  An agent that enters the
+        # task with other bounds (left by an earlier task) is a gap of the history model `run p o (with_loc x lc)`: reported as a
+        # disagreement even if this run happens not to clip.
+        want_lb = [0.0] * nv if cfg['space'] == 'hyper' else lb
+        want_ub = [1.0] * nv if cfg['space'] == 'hyper' else ub
+        st['gaps'] = ['agent %d enters the task with bounds %s..%s, the space declares %s..%s' % (
+            i, np.asarray(a.lb).tolist(), np.asarray(a.ub).tolist(), want_lb, want_ub) for i, a in enumerate(sp.agents)
+            if not (np.array_equal(np.asarray(a.lb, dtype=float), want_lb) and np.array_equal(np.asarray(a.ub, dtype=float), want_ub))][:3]
         st['shape'] = list(np.asarray(sp.agents[0].position).shape)
         REC.reset(len(sp.agents), sp)
         REC.active = True
@@ -402,7 +432,7 @@ def run_case(inst, cfg):
         if k in ftab and ftab[k][1] != v:
             return None, 'objective not deterministic'
         ftab[k] = (c, v)
-    case = {'optimizer': inst.cls, 'N': na, 'T': T, 'space': cfg['space'], 'hyperparams': cfg.get('hyperparams') or {}, 'objective': cfg['objective'], 'seed': cfg['seed'], 'box': [lb, ub],
+    case = {'prelude': list(cfg.get('prelude') or []), 'gaps': st.get('gaps') or [], 'optimizer': inst.cls, 'N': na, 'T': T, 'space': cfg['space'], 'hyperparams': cfg.get('hyperparams') or {}, 'objective': cfg['objective'], 'seed': cfg['seed'], 'box': [lb, ub],
             'n_variables': nv, 'shape': st['shape'], 'lbs': st['lbs'], 'ubs': st['ubs'], 'x0': st['x0'], 'oracle': REC.o, 'osrc': REC.src,
             'ftable': [list(x) for x in ftab.values()],
             'expected': {'args': [c for c, _ in calls], 'vals': [v for _, v in calls], 'dumps': dumps, 'final': final},
@@ -417,6 +447,10 @@ QUICK_CONFIGS = [  # (n_agents, n_variables, n_iterations, space, objective)
     (2, 2, 1, 'hyper', 'sphere'), (3, 1, 3, 'hyper', 'negative'), (4, 1, 2, 'hyper', 'shifted'), (3, 2, 3, 'search', 'negative')]
 
 
+HIST_PATTERNS = [['self'], ['PSO'], ['WCA'], ['HS'], ['ABC'], ['same-class'], ['PSO', 'self'], ['self', 'self'], ['HS', 'WCA'], ['GSA'],
+                 ['WCA', 'self'], ['BHA', 'same-class']]
+HIST_TREE = [['self'], ['same-class'], ['self', 'self'], ['same-class', 'self']]
+MIN_AGENTS = {'WCA': 2, 'GSA': 2}
 VARIANTS = {'ABC': {'n_trials': 1}}      # the scout phase needs more than n_trials (default 10) failed trials of one source
 
 
@@ -436,6 +470,22 @@ def configs(cls, rng, min_agents):
                     'box': list(BOXES[k % len(BOXES)] if k >= 3 else BOXES[0]),
                     # default hyperparameters, except where a branch of the program is unreachable with them in <= 3 iterations
                     'hyperparams': VARIANTS.get(cls, {}) if k % 4 == 3 else {}})
+    # histories: the observed task is the second or third task on its space.  'self' = the same optimizer OBJECT ran the earlier task
+    # (its adaptive hyperparameters have moved), 'same-class' = another object of the class, otherwise an optimizer of another class
+    pats = HIST_TREE if cls == 'GP' else HIST_PATTERNS
+    for k in range(2 if hlib.QUICK else 12):
+        off = [c for c, _ in t2_ir.OPTIMIZERS].index(cls)      # the second pattern rotates with the optimizer, the first is always 'self'
+        if k < 2:
+            na, nv, T, space, obj = QUICK_CONFIGS[2 if k == 0 else (5, 3)[off % 2]]
+        else:
+            na, nv, T, space, obj = (rng.randint(2, 4), rng.randint(1, 2), rng.randint(1, 3), rng.choice(['search', 'search', 'hyper']),
+                                     rng.choice(['sphere', 'negative', 'shifted']))
+        if cls == 'GP':
+            na, space = (10, 12, 4, 8, 16, 10)[k % 6], 'tree'
+        pre = list(pats[0] if k == 0 else pats[1 + (k - 1 + off) % (len(pats) - 1)])
+        need = max([min_agents, na] + [MIN_AGENTS.get(p, 1) for p in pre])
+        out.append({'n_agents': need, 'n_variables': nv, 'n_iterations': T, 'space': space, 'objective': obj, 'box': list(BOXES[(k + 1) % len(BOXES)]),
+                    'hyperparams': {}, 'prelude': pre})
     return out
 
 
